@@ -137,7 +137,18 @@ pub struct FmtSettings {
 fn array_node_to_formula_value(node: ArrayNode) -> FormulaValue {
     match node {
         ArrayNode::Boolean(b) => FormulaValue::Boolean(b),
-        ArrayNode::Number(n) => FormulaValue::Number(n),
+        ArrayNode::Number(n) => {
+            // same safety belt as the scalar path of `set_cells_with_result`
+            if n.is_nan() || n.is_infinite() {
+                FormulaValue::Error {
+                    ei: Error::NUM,
+                    o: String::new(),
+                    m: String::new(),
+                }
+            } else {
+                FormulaValue::Number(n)
+            }
+        }
         ArrayNode::String(s) => FormulaValue::Text(s),
         ArrayNode::Error(ei) => FormulaValue::Error {
             ei,
@@ -151,7 +162,13 @@ fn array_node_to_formula_value(node: ArrayNode) -> FormulaValue {
 fn array_node_to_spill_value(node: ArrayNode) -> SpillValue {
     match node {
         ArrayNode::Boolean(b) => SpillValue::Boolean(b),
-        ArrayNode::Number(n) => SpillValue::Number(n),
+        ArrayNode::Number(n) => {
+            if n.is_nan() || n.is_infinite() {
+                SpillValue::Error(Error::NUM)
+            } else {
+                SpillValue::Number(n)
+            }
+        }
         ArrayNode::String(s) => SpillValue::Text(s),
         ArrayNode::Error(ei) => SpillValue::Error(ei),
         ArrayNode::Empty => SpillValue::Number(0.0),
